@@ -9,6 +9,10 @@ the generated scanner."""
 from .facts import AnalysisBroken, walk_expr, show, expr_children
 
 
+# callee signature -> returned expression, for the one-line const bool predicates of the loaded units (filled by facts.Facts)
+PREDICATE_BODIES = {}
+
+
 class Node:
     __slots__ = ('id', 'kind', 'stmt', 'exprs', 'succ', 'pred', 'label', 'of', 'events')
 
@@ -293,9 +297,23 @@ class CFG:
         return {d: v for d, v in cand.items() if d not in killed}
 
     def expanded(self, e, depth=0):
-        """copy of condition e in which single-definition bool/scalar locals are replaced by their initialiser"""
+        """copy of condition e in which single-definition bool/scalar locals are replaced by their initialiser, and calls of one-line
+        const predicates of the repository (bool isLinear() const { return gen_res.empty(); }) by the expression they return"""
         if not isinstance(e, dict) or depth > 6:
             return e
+        if e.get('k') == 'call' and not e.get('args') and e.get('callee_sig') in PREDICATE_BODIES and (e.get('cty') or '') == 'bool':
+            body = PREDICATE_BODIES[e['callee_sig']]
+            obj = e.get('obj')
+
+            def rebase(x):
+                if isinstance(x, list):
+                    return [rebase(y) for y in x]
+                if not isinstance(x, dict):
+                    return x
+                if x.get('k') == 'this' and obj is not None:
+                    return obj
+                return {k: rebase(v) for k, v in x.items()}
+            return self.expanded(rebase(body), depth + 1)
         if e.get('k') == 'ref' and e.get('dk') == 'var' and e.get('d') in self._subst:
             init = self._subst[e['d']]
             ct = (e.get('cty') or '').replace('const ', '')
